@@ -121,6 +121,15 @@ struct WorldSim {
 		}
 		(void)served_before;
 	}
+	// "a peer close, reset or timed-out connection ends the request with a network error": when the armed transport fault cut the
+	// call short, the error reported is one of the network class
+	void check_fault_error(const char *what, int res, bool http) {
+		if (!bw.fault_fired || res == KSI_OK) return;
+		char key[64]; snprintf(key, sizeof key, "%s/%s/err-0x%x", what, http ? "http" : "tcp", res);
+		K.count((std::string("probe.fault_error.") + key).c_str());
+		bool net = res == KSI_NETWORK_ERROR || res == KSI_NETWORK_CONNECTION_TIMEOUT || res == KSI_NETWORK_SEND_TIMEOUT || res == KSI_NETWORK_RECIEVE_TIMEOUT || res == KSI_HTTP_ERROR || res == KSI_IO_ERROR;
+		if (!net) K.fail("C14", "transport-fault-not-reported-as-network-error", key, "the connection was cut in the middle of the %s call, but the call returned 0x%x (%s), not a network error", what, res, sdk::err_name(res));
+	}
 
 	void op_sign(const run::Op &op, int tamper_bit = -1) {
 		CallEnv e = env_from(op, 2);
@@ -142,6 +151,7 @@ struct WorldSim {
 		KSI_DataHash_free(dh);
 		bw.disarm();
 		after_call("sign", served0, transfer_to > 0);
+		check_fault_error("sign", res, bw.aggr_http);
 		K.count(res == KSI_OK ? "outcome.sign_ok" : "outcome.sign_error");
 		const ServedRequest *sr = bw.served.size() > served0 ? &bw.served[served0] : nullptr;
 		if (bw.served.size() > served0 + 1) K.fail("C07", "request-sent-twice", "blocking", "one signing call produced %zu requests", bw.served.size() - served0);
@@ -208,10 +218,11 @@ struct WorldSim {
 			K.fail("C07", "deprecated-algorithm-sent", "blocking", "network activity before an untrusted input hash algorithm was refused");
 	}
 
-	void op_extend(const run::Op &op) {
+	void op_extend(const run::Op &op, int tamper_bit = -1) {
 		if (pool.empty()) return;
 		Src &src = pool[(size_t)op.arg(0) % pool.size()];
 		CallEnv e = env_from(op, 2);
+		e.tamper_bit = tamper_bit;
 		int target = (int)(op.arg(1) % 5);
 		uint64_t head = bw.world.head();
 		bool has_pub = false; uint64_t pub = 0;
@@ -252,6 +263,7 @@ struct WorldSim {
 		K.ev("EXTEND target=%d pub=%llu ctx=%d -> 0x%x", target, (unsigned long long)pub, ctxmode, res);
 		bw.disarm();
 		after_call("extend", served0, transfer_to > 0);
+		check_fault_error("extend", res, bw.ext_http);
 		K.count(res == KSI_OK ? "outcome.extend_ok" : "outcome.extend_error");
 		if (to) KSI_Integer_free(to);
 		const ServedRequest *sr = bw.served.size() > served0 ? &bw.served[served0] : nullptr;
@@ -311,11 +323,13 @@ struct WorldSim {
 	void op_sweep(const run::Op &op) {
 		// C06: flip single bits of one reply (a stride of the positions; the phases of all runs together cover every bit)
 		run::Op base = op;
-		base.k = "SIGN";
+		bool ext = op.arg(12) % 2 == 1;   // sweep an extender reply instead of an aggregator reply
+		base.k = ext ? "EXTEND" : "SIGN";
+		if (ext) { base.a.resize(10); base.a[1] = op.arg(1) % 3 == 0 ? 0 : 1; base.a[8] = 1; base.a[9] = 0; }
 		size_t stride = (size_t)std::max<int64_t>(1, op.arg(10, 13)), phase = (size_t)op.arg(11) % stride;
 		size_t approx_bits = 8 * 1400;
 		for (size_t bit = phase; bit < approx_bits; bit += stride) {
-			op_sign(base, (int)bit);
+			if (ext) op_extend(base, (int)bit); else op_sign(base, (int)bit);
 			if (K.failed()) return;
 			if (!bw.served.empty() && !bw.served.back().reply.empty() && bit + stride >= bw.served.back().reply.size() * 8) break;
 		}
@@ -380,7 +394,7 @@ struct WorldEngine : run::Engine {
 			// tamper sweeps: every bit position of one reply, split over `stride` phases
 			p.cfg["adv"] = 1; p.cfg["faults"] = 0;
 			run::Op op; op.k = "SWEEP";
-			op.a = {(int64_t)g.below(20), (int64_t)g.below(3), 0, (int64_t)g.below(1 << 30), 0, 0, 0, 0, 0, 0, 29, (int64_t)g.below(29)};
+			op.a = {(int64_t)g.below(20), (int64_t)g.below(3), 0, (int64_t)g.below(1 << 30), 0, 0, 0, 0, 0, 0, 29, (int64_t)g.below(29), (int64_t)g.below(2)};
 			p.ops.push_back(op);
 			return p;
 		}
